@@ -129,9 +129,49 @@ func (o *c05Oracle) harnessClean() {
 		}
 	}
 
+	before := map[string]base.StagePoint{}
+	beforeSC := map[string]bool{}
+
+	for _, rec := range box.VerifRecords() {
+		if !rec.Point.IsZero() {
+			before[rec.Key] = rec.Point
+			beforeSC[rec.Key] = rec.IsSC
+		}
+	}
+
 	box.VerifClean()
 	o.cleans++
 	o.r.Probe("harness_clean")
+
+	// black box: a stage point whose record this clean-up took out of the record map is not answered for any more,
+	// whatever way the box has of reaching a record (the normal record of the point; suffrage-confirm records are
+	// not what Voted/MissingNodes look at)
+	after := map[string]bool{}
+	for _, rec := range box.VerifRecords() {
+		after[rec.Key] = true
+	}
+
+	addrs := make([]base.Address, len(o.s.w.c.Nodes))
+	for i, n := range o.s.w.c.Nodes {
+		addrs[i] = n.Address()
+	}
+
+	for key, p := range before {
+		if after[key] || beforeSC[key] {
+			continue
+		}
+
+		o.r.Checked()
+		o.r.Probe("unlinked_point_queried")
+
+		if sfs := box.Voted(p, addrs); len(sfs) > 0 {
+			o.r.Fail("released-record-still-consulted", "voted-answers-for-unlinked-point", "the record of %s was taken out of the record map by the clean-up, but Voted(%s) still returns %d sign facts", p, p, len(sfs))
+		}
+
+		if _, found, err := box.MissingNodes(p); err == nil && found {
+			o.r.Fail("released-record-still-consulted", "missing-nodes-answers-for-unlinked-point", "the record of %s was taken out of the record map by the clean-up, but MissingNodes(%s) still finds it", p, p)
+		}
+	}
 
 	if L.IsZero() || !(L.StagePoint.Equal(o.lastL.StagePoint) && L.IsMajority() == o.lastL.IsMajority()) {
 		o.lastL = L
